@@ -315,6 +315,40 @@ func (r *rewriter) computeTaint(body *ast.BlockStmt) {
 		}
 		return false
 	}
+	// variables declared outside a `go func(){...}` literal but assigned inside it are shared between the
+	// goroutine and its parent, whatever their type
+	ast.Inspect(body, func(n ast.Node) bool {
+		g, ok := n.(*ast.GoStmt)
+		if !ok {
+			return true
+		}
+		lit, ok := g.Call.Fun.(*ast.FuncLit)
+		if !ok {
+			return true
+		}
+		ast.Inspect(lit.Body, func(m ast.Node) bool {
+			var lhs []ast.Expr
+			switch x := m.(type) {
+			case *ast.AssignStmt:
+				if x.Tok != token.DEFINE {
+					lhs = x.Lhs
+				}
+			case *ast.IncDecStmt:
+				lhs = []ast.Expr{x.X}
+			}
+			for _, l := range lhs {
+				if id, ok := unparen(l).(*ast.Ident); ok && id.Name != "_" {
+					if o := r.info.Uses[id]; o != nil && (o.Pos() < lit.Pos() || o.Pos() > lit.End()) && !r.pkgVars[o] {
+						if _, isVar := o.(*types.Var); isVar {
+							r.tainted[o] = true
+						}
+					}
+				}
+			}
+			return true
+		})
+		return true
+	})
 	for iter := 0; iter < 4; iter++ {
 		changed := false
 		ast.Inspect(body, func(n ast.Node) bool {
